@@ -200,15 +200,71 @@ def httpErrorActs (code textLen : Nat) : List Act :=
    .setHeader (bytesOfString "X-Content-Type-Options") (bytesOfString "nosniff"),
    .writeHeader code, .write (textLen + 1)]
 
-/-- Length of `http.StatusText(code)` for the codes the harness configures (net/http's table is outside the model; an
-unknown code has the empty text). -/
+/-- Length of `http.StatusText(code)`: net/http's table (an unknown code has the empty text); tied to the toolchain in use
+by a regenerated fact over all codes 0..599 (`Mux/Ties/C16.lean`). -/
 def statusTextLen : Nat → Nat
+  | 100 => 8      -- Continue
+  | 101 => 19      -- Switching Protocols
+  | 102 => 10      -- Processing
+  | 103 => 11      -- Early Hints
   | 200 => 2      -- OK
-  | 400 => 11     -- Bad Request
+  | 201 => 7      -- Created
+  | 202 => 8      -- Accepted
+  | 203 => 29      -- Non-Authoritative Information
+  | 204 => 10      -- No Content
+  | 205 => 13      -- Reset Content
+  | 206 => 15      -- Partial Content
+  | 207 => 12      -- Multi-Status
+  | 208 => 16      -- Already Reported
+  | 226 => 7      -- IM Used
+  | 300 => 16      -- Multiple Choices
+  | 301 => 17      -- Moved Permanently
+  | 302 => 5      -- Found
+  | 303 => 9      -- See Other
+  | 304 => 12      -- Not Modified
+  | 305 => 9      -- Use Proxy
+  | 307 => 18      -- Temporary Redirect
+  | 308 => 18      -- Permanent Redirect
+  | 400 => 11      -- Bad Request
+  | 401 => 12      -- Unauthorized
+  | 402 => 16      -- Payment Required
+  | 403 => 9      -- Forbidden
   | 404 => 9      -- Not Found
-  | 418 => 12     -- I'm a teapot
-  | 500 => 21     -- Internal Server Error
-  | 503 => 19     -- Service Unavailable
+  | 405 => 18      -- Method Not Allowed
+  | 406 => 14      -- Not Acceptable
+  | 407 => 29      -- Proxy Authentication Required
+  | 408 => 15      -- Request Timeout
+  | 409 => 8      -- Conflict
+  | 410 => 4      -- Gone
+  | 411 => 15      -- Length Required
+  | 412 => 19      -- Precondition Failed
+  | 413 => 24      -- Request Entity Too Large
+  | 414 => 20      -- Request URI Too Long
+  | 415 => 22      -- Unsupported Media Type
+  | 416 => 31      -- Requested Range Not Satisfiable
+  | 417 => 18      -- Expectation Failed
+  | 418 => 12      -- I'm a teapot
+  | 421 => 19      -- Misdirected Request
+  | 422 => 20      -- Unprocessable Entity
+  | 423 => 6      -- Locked
+  | 424 => 17      -- Failed Dependency
+  | 425 => 9      -- Too Early
+  | 426 => 16      -- Upgrade Required
+  | 428 => 21      -- Precondition Required
+  | 429 => 17      -- Too Many Requests
+  | 431 => 31      -- Request Header Fields Too Large
+  | 451 => 29      -- Unavailable For Legal Reasons
+  | 500 => 21      -- Internal Server Error
+  | 501 => 15      -- Not Implemented
+  | 502 => 11      -- Bad Gateway
+  | 503 => 19      -- Service Unavailable
+  | 504 => 15      -- Gateway Timeout
+  | 505 => 26      -- HTTP Version Not Supported
+  | 506 => 23      -- Variant Also Negotiates
+  | 507 => 20      -- Insufficient Storage
+  | 508 => 13      -- Loop Detected
+  | 510 => 12      -- Not Extended
+  | 511 => 31      -- Network Authentication Required
   | _ => 0
 
 /-- The recorder after the recovery function ran on the writer it was handed: the plain writer, or the `headResponse`
